@@ -213,7 +213,8 @@ def run_entry(entry, n, seed, acc, tier):
         else:
             dl = ch.choice([('~', '*', ':', '^'), ('|', '!', '\\', '`'), ('\n', '*', ':', '^')])
         avoid = '~*:^' + ''.join(dl)
-        res = genfaulty.build(entry, ch, acc, max_faults=5, avoid=avoid, flavor='markup' if mode != 'plain' else 'plain', envelope=.2,
+        res = (genfaulty.build_mixed if ch.chance(.08) else lambda c_, a_, **k_: genfaulty.build(entry, c_, a_, **k_))(
+                              ch, acc, max_faults=5, avoid=avoid, flavor='markup' if mode != 'plain' else 'plain', envelope=.2,
                               hostile_values=[m for m in MARKERS if not any(c in m for c in dl)] if mode == 'markup-values' else None,
                               shapes=[(1, 1, 1), (1, 1, 2), (1, 2, 1), (2, 1, 1), (1, 2, 3), (1, 2, 2), (1, 3, 2)], keep_empty_tail=.3, by_set=.3, twin_sets=.06, cluster=.1, respell_twin=.12)
         if res is None:
